@@ -115,6 +115,15 @@ package include
 //@   loop 1 invariant 0 - 1 <= rangeindex && rangeindex <= len(subErrors) - 1 && (forall i int :: 0 <= i && i <= rangeindex ==> subErrors[i].Range == incRange)
 //@   loop 1 decreases len(subErrors) - rangeindex
 
+// LoadFromContent: the public entry point (size check + loadWithContent with an empty ancestor stack). Trusted for one
+// fact about its errors that is an assumption on the files, not a property of the code: positions fit in 32 bits (no
+// file of the tree is longer than 4 GiB; the configured size limit is 10 MiB by default). A range may be the zero range
+// (an oversized root file is reported without one).
+//@ trusted (*Loader).LoadFromContent
+//@   requires l != nil
+//@   ensures [positions_fit] forall i int :: {result1[i]} 0 <= i && i < len(result1) ==> 0 <= result1[i].Range.Start.Line && result1[i].Range.Start.Line <= 4294967296 && 0 <= result1[i].Range.Start.Column && result1[i].Range.Start.Column <= 4294967296 && 0 <= result1[i].Range.End.Line && result1[i].Range.End.Line <= 4294967296 && 0 <= result1[i].Range.End.Column && result1[i].Range.End.Column <= 4294967296
+//@   modifies l.cache[*]
+
 //@ func (*Loader).InvalidateFile
 //@   props C11
 //@   requires [C11:changed_file] LCacheOKExcept(l, path)
